@@ -277,7 +277,11 @@ def main(argv):
             if f.get("forced_stub_reason") and k not in stub: stub.add(k); stub_reason[k] = f["forced_stub_reason"]
             # a repo function whose contract is ASSUMED (external_body: Display, wrap_value, ...) and whose body changed: the assumption was made
             # about the old body - the function is outside the verifier's reach and the bounded witness search decides (DESIGN 2.4)
-            if baseline and f["external_body"] and k in baseline and baseline.get(k) != f["body_hash"] and k not in stub:
+            #  - not for Display/Debug::fmt: their ghost text (DispSpec) is regenerated from the CURRENT body on every run (R-display), an
+            #    unrecognised body gets an uninterpreted text and whatever rested on it fails by itself;
+            #  - not for Header::default: the Kani closed-term harnesses re-check it whenever its file changes
+            regenerated = f["fn"] == "fmt" or (f["fn"] == "default" and f["file"] == "core/header.rs")
+            if baseline and f["external_body"] and not regenerated and k in baseline and baseline.get(k) != f["body_hash"] and k not in stub:
                 stub.add(k); stub_reason[k] = "body of a function whose contract is assumed (external_body) has changed"
         changed = [k for k, f in fns_by_key.items() if baseline and baseline.get(k) != f["body_hash"] and not f["external_body"] and k not in stub]
         # a contracted function that vanished while a new one with the same signature appeared in the same impl: a rename, the contract follows
@@ -407,7 +411,9 @@ def main(argv):
                 ps |= set(label_props(l))
                 ps |= set(LABEL_DEPS.get("%s#%s" % (k, l), {}).get("props", []))     # what rests on its clauses in callers' proofs
             ps |= set(FN_BODY_PROPS.get(k, []))
-            if not f.get("labels") and not f.get("safety"): ps |= set(SHARED)
+            # an uncontracted helper that became unverifiable: every shared-core property may rest on it.  Not for functions that are
+            # external_body on the unchanged tree as well and carry no label (Payload == R, Debug): nothing was ever proved through them
+            if not f.get("labels") and not f.get("safety") and not (f["external_body"] and not f.get("stubbed")): ps |= set(SHARED)
             if pid in ps: out_of_reach.append((k, stub_reason.get(k, "")))
             elif k in cone.get(pid, ()): out_of_reach_cone.append((k, stub_reason.get(k, "")))
         kani_info = None
